@@ -1,9 +1,10 @@
 #!/bin/bash
-# benign.sh <variant> <PID...>: build the benign variant under /tmp/pgv_benign/<variant> (if missing) and run the checks on it
+# benign.sh <variant> <PID...>: build the benign variant under /tmp/pgv_benign/<repo state>/<variant> (if missing) and run the checks on it
 v=$1; shift
-root=/tmp/pgv_benign/$v
+head=$(git -C /repo rev-parse --short HEAD 2>/dev/null)$(git -C /repo status --porcelain -- pygyro fullSimulation.py | md5sum | cut -c1-6)
+root=/tmp/pgv_benign/$head/$v
 if [ ! -d $root ]; then
-  mkdir -p /tmp/pgv_benign
+  mkdir -p /tmp/pgv_benign/$head
   /venv/bin/python -c "
 import sys; sys.path.insert(0,'/verif')
 from pathlib import Path
